@@ -373,7 +373,7 @@ def fill_compare(run, prop, answers=False):
 @register("C07")
 def c07(prop, tier, seed, wd, explore, limit, kinds, we):
     # full object life cycle through every API + forced buffer growth
-    cases = P.basic_cases(prop, seed, tier, ops=(), states=("fresh", "own", "gen", "resaved", "concat", "survivor", "cold", "coldgen"), per_input_states=3)
+    cases = P.basic_cases(prop, seed, tier, ops=(), states=("fresh", "own", "gen", "resaved", "concat", "survivor", "heir", "cold", "coldgen"), per_input_states=4)
     for c in list(cases):
         pass
     grow = []
@@ -448,6 +448,8 @@ def c06(prop, tier, seed, wd, explore, limit, kinds, we):
             cseed = gen.splitmix(seed, ii, 11)
             states = [("fresh", 1), ("own", 1), ("concat", 1)]
             states.append(("cold", 1))
+            states.append(("heir", 1))
+            states.append(("survivor", 1))
             if kind != "BLOCKS":
                 states.append(("gen", 1))
                 states.append(("coldgen", 1))
@@ -462,7 +464,7 @@ def c06(prop, tier, seed, wd, explore, limit, kinds, we):
     def nt(case, cnt):
         return case.state != "fresh" and len(case.S) >= 2
     return dict_check(prop, tier, seed, wd, explore, limit, kinds, we, cases,
-                      RULE_BASE + "; each (kind, params, input) is run fresh, through its own loader, through the generic loader, from a concatenation of two images, with load options 1..3 for HASHHF/HASHRPF, and 'cold': the image is written to a file by one process and loaded (own / generic loader) by another process that builds nothing; "
+                      RULE_BASE + "; each (kind, params, input) is run fresh, through its own loader, through the generic loader, from a concatenation of two images, with load options 1..3 for HASHHF/HASHRPF, side by side with the built object which is then destroyed ('heir') or which outlives the loaded copy ('survivor'), and 'cold': the image is written to a file by one process and loaded (own / generic loader) by another process that builds nothing; "
                       "all transcripts (every locate/extract/absent/bad-id/rank/prefix/substring/table answer) must be equal and agree with the model; non-trivial = loaded state with >= 2 strings",
                       nontrivial=nt, post=post, required=("concat_images", "cold_load"))
 
